@@ -193,6 +193,14 @@ def main():
             if m and m.group(4) in MNEM:
                 real.append('%s %s %s %d %s' % (m.group(1), m.group(2), m.group(3) or '-', MNEM[m.group(4)], m.group(5)))
         exp = [l for l in o3.decode().split('\n') if l.strip()]
+        if rc3 != 0 or not exp or exp[0].startswith('LOADREJECT'):
+            ck.broken.append('the extracted trace run failed on a compiled program (rc=%d): %s' % (rc3, (o3 + e3).decode('latin1')[-200:]))
+            continue
+        if not real:
+            nbad += 1
+            ck.violation('hexsim -t printed no trace line for a compiled program (status %d, stderr %r)' % (rc2, e2.decode('latin1')[:120]),
+                         {'source': src.decode(), 'calls': seq, 'names': names}, tags={'kind': 'trace'})
+            continue
         ck.cov['evaluations'] += 1
         lines_total += len(real)
         ncmp = min(len(real), len(exp))
